@@ -33,6 +33,9 @@ func (e *mvccEngine) newConfig() (nitro.Config, *guardalloc.Alloc) {
 	if e.delta {
 		cfg.UseDeltaInterleaving()
 	}
+	if os.Getenv("NVDEBUG") != "" {
+		fmt.Fprintf(os.Stderr, "newConfig kv=%v mm=%v delta=%v\n", e.kv, e.mm, e.delta)
+	}
 	return cfg, a
 }
 
@@ -193,6 +196,14 @@ func (e *mvccEngine) backupOp(toks []string) string {
 		case "sums":
 			ioutil.WriteFile(filepath.Join(d, "data", "checksums.json"), bs, 0644)
 			return manifestTokens(d)[2]
+		case "dfiles":
+			os.MkdirAll(filepath.Join(d, "delta"), 0755)
+			ioutil.WriteFile(filepath.Join(d, "delta", "files.json"), bs, 0644)
+			return manifestTokens(d)[3]
+		case "dsums":
+			os.MkdirAll(filepath.Join(d, "delta"), 0755)
+			ioutil.WriteFile(filepath.Join(d, "delta", "checksums.json"), bs, 0644)
+			return manifestTokens(d)[4]
 		}
 		return "bad-op"
 	case "store":
